@@ -24,7 +24,8 @@ from pathlib import Path
 VERIF = Path(__file__).resolve().parent
 sys.path.insert(0, str(VERIF))
 os.environ.setdefault("PYPOSE_VERIF", "1")
-os.environ.setdefault("OMP_NUM_THREADS", "4")
+os.environ.setdefault("OMP_NUM_THREADS", "1")   # one intra-op thread: with several threads torch is ~30x slower on small ops when the box is busy
+os.environ.setdefault("MKL_NUM_THREADS", "1")
 
 from harness import common  # noqa: E402
 from harness.common import Ctx, InfraError, write_json  # noqa: E402
